@@ -391,10 +391,9 @@ _AMEND2 = {
     "C17": [("before any estimate is computed;",
              "before any estimate is computed, and the impossible-batch return is taken not only for a margin quotient outside [-1, 1] but whenever the "
              "dem or the gop count goes down between two versions (a quotient of two negative differences is back inside the range, F37);")],
-    "C18": [("one put per returned table.",
-             "one put per returned table; the summary write's flag and the results it writes are of the same run: an estimate run drops the client's "
-             "previous results before it changes any setting (F26) and publishes its own results handler on the client only after every model step has "
-             "completed (F36), so a rejected request leaves nothing a later national summary could combine or write.")],
+    "C18": [("cannot leave old results next to new settings (F26).",
+             "cannot leave old results next to new settings (F26), and a run publishes its own results handler on the client only after every model "
+             "step has completed, so a request rejected midway leaves no half-filled results for a later summary either (F36).")],
     "C06": [("the ranks are the statement's own formulas;",
              "the ranks are the statement's own formulas; every quotient by a group turnout total is nan_to_num(x / total), so a group with zero "
              "predicted turnout has margin 0, not NaN;")],
